@@ -34,7 +34,7 @@ ASSUMPTIONS = [
     "mailbox capacity is drawn above the largest lag (3 x chunks + 8), as the property requires",
     "real-thread runs: a strax timeout is inconclusive, not a violation (deadlocks are decided in C05/C06/C13)",
 ]
-REQUIRED = {"requests_completed": 100, "chunks_checked": 300, "law_chunk_init": 1000, "law_split": 100,
+REQUIRED = {"mp_runs": 5, "mp_reloads": 5, "requests_completed": 100, "chunks_checked": 300, "law_chunk_init": 1000, "law_split": 100,
             "reloads_checked": 50, "prestores": 30, "threaded_runs": 30, "single_thread_runs": 30}
 UNIT_TIMEOUT = 1200
 
@@ -166,12 +166,93 @@ def units(tier, seed):
     q = tier == "quick"
     n_units = 16 if q else 64
     per = 60 if q else 250
-    return [{"name": f"graphs-{k}", "seed": seed, "lo": k * per, "hi": (k + 1) * per} for k in range(n_units)]
+    us = [{"name": f"graphs-{k}", "seed": seed, "lo": k * per, "hi": (k + 1) * per} for k in range(n_units)]
+    for k in range(3 if q else 8):
+        us.append({"name": f"mp-{k}", "fam": "mp", "seed": seed, "lo": k * (4 if q else 30), "hi": (k + 1) * (4 if q else 30)})
+    return us
+
+
+def run_mp_case(seed, idx):
+    """Multiprocessing path: plugins with parallel='process' are inlined into a ParallelSourcePlugin whose
+    computations and (forked) savers run in a process pool."""
+    import multiprocessing as _mp
+
+    from vf.harness import mp_plugins as mp
+    from vf.mon import storagemd
+
+    # fork() from a process that has threads (mailboxes, monitors holding locks) can deadlock the child;
+    # the pool workers are therefore started through a fork server (clean single-threaded parent)
+    if _mp.get_start_method(allow_none=True) != "forkserver":
+        _mp.set_start_method("forkserver", force=True)
+
+    rng = gen.rng_for(seed, "c01mp", idx)
+    rows, end = gen.gen_disjoint_rows(rng, rng.randint(1, 8), 0, 1)
+    t1 = end + rng.choice([0, 3])
+    cuts = gen.gen_cuts(rng, rows, 0, t1, 1, max_inner=4)
+    case = {"mp": True, "rows": rows, "cuts": cuts, "target": rng.choice(["mptop", "mptop", "mpma", "mpmb"]),
+            "max_messages": rng.choice([4, 10])}
+    viol, cnt = [], {}
+    out = mp.whole_run(rows)
+    d = hrun.mktemp("c01mp-")
+    try:
+        st = strax.Context(storage=[strax.DataDirectory(d)], register=mp.ALL,
+                           config=dict(mp_rows=tuple(rows), mp_cuts=tuple(cuts)), allow_multiprocess=True,
+                           allow_lazy=False, max_messages=case["max_messages"], timeout=120,
+                           processors=["threaded_mailbox"])
+        try:
+            with common.quiet():
+                chunks = list(st.get_iter("0", case["target"], progress_bar=False, max_workers=2))
+        except Exception as e:  # noqa: BLE001
+            if "Timeout" in type(e).__name__:
+                return viol, cnt, case, [f"mp case {idx}: timeout {e}"]
+            sig = {"stage": "request", "kind": "exception", "mp": True}
+            sig.update(common.exc_sig(e))
+            viol.append({"sig": sig, "what": f"multiprocess request failed: {e!r}", "case": case})
+            return viol, cnt, case, []
+        cnt["mp_runs"] = 1
+        for e in oracle.check_chunks(chunks, out[case["target"]], 0, t1):
+            viol.append({"sig": {"stage": "request", "kind": "rows" if "rows" in e else "tiling", "mp": True},
+                         "what": f"multiprocess: {e}", "case": case})
+        st2 = strax.Context(storage=[strax.DataDirectory(d)], register=mp.ALL,
+                            config=dict(mp_rows=tuple(rows), mp_cuts=tuple(cuts)), processors=["single_thread"],
+                            forbid_creation_of=("*",))
+        for dt in out:
+            if st2.is_stored("0", dt):
+                try:
+                    with common.quiet():
+                        ch = list(st2.get_iter("0", dt, progress_bar=False))
+                    got = np.concatenate([c.data for c in ch])
+                    cnt["mp_reloads"] = cnt.get("mp_reloads", 0) + 1
+                    if not oracle.rows_equal(got, out[dt]):
+                        viol.append({"sig": {"stage": "reload", "kind": "rows", "mp": True},
+                                     "what": f"multiprocess: stored {dt} = {got.tolist()} != {out[dt].tolist()}", "case": case})
+                    key = str(st2.key_for("0", dt))
+                    for e in storagemd.metadata_errors(os.path.join(d, key), ch, run_id="0")[:2]:
+                        viol.append({"sig": {"stage": "reload", "kind": "metadata", "mp": True},
+                                     "what": f"multiprocess: metadata of {dt}: {e}", "case": case})
+                except Exception as e:  # noqa: BLE001
+                    sig = {"stage": "reload", "kind": "exception", "mp": True}
+                    sig.update(common.exc_sig(e))
+                    viol.append({"sig": sig, "what": f"multiprocess: stored {dt} does not load: {e!r}", "case": case})
+    finally:
+        hrun.rm(d)
+    return viol, cnt, case, []
 
 
 def run_unit(u):
     cl.install(strax)
     res = {"evaluations": 0, "hashes": [], "counters": {}, "samples": [], "violations": [], "inconclusive": []}
+    if u.get("fam") == "mp":
+        for idx in range(u["lo"], u["hi"]):
+            viol, cnt, case, inc = run_mp_case(u["seed"], idx)
+            res["evaluations"] += 1
+            if len(case["rows"]) and len(case["cuts"]) >= 3 and cnt.get("mp_runs"):
+                res["hashes"].append(common.chash(case))
+            for k, v in cnt.items():
+                res["counters"][k] = res["counters"].get(k, 0) + v
+            res["violations"].extend(viol[:2])
+            res["inconclusive"].extend(inc)
+        return res
     for idx in range(u["lo"], u["hi"]):
         case = gen_case(u["seed"], idx)
         viol, cnt, nontrivial, inc = run_case(case)
@@ -194,6 +275,8 @@ def run_unit(u):
 
 def replay(case):
     cl.install(strax)
+    if case.get("mp"):
+        return [{"sig": {"kind": "mp"}, "what": "multiprocess cases are re-run through the check itself (seeded)", "case": case}]
     viol, cnt, nontrivial, inc = run_case(case)
     for i in inc:
         print("INCONCLUSIVE:", i)
